@@ -29,6 +29,8 @@ type Actor struct {
 	proposed   map[string]bool   // autopilot: stack/view already proposed
 	ForgedQCs  []hotstuff.QuorumCert
 	ForgedTCs  []hotstuff.TimeoutCert
+	hold       bool              // autopilot: withhold the next proposal
+	held       []hotstuff.ProposeMsg
 	armed      *Step             // autopilot: deviation to apply to the next proposal the actor would make honestly
 	Deviations int
 	batches    int
@@ -249,6 +251,8 @@ const (
 	AProposeSkip          // template: in a view the actor leads, certificate = the highest known QC, parent = an OLDER block (an ancestor of the certified block, or any other block)
 	AProposeStaleQC       // template: in a view the actor leads, parent = the newest block, certificate = an older valid QC (fork from an ancestor, like byzantine.Fork)
 	AProposeOnForged      // template: a hidden block X (old parent, real old certificate) that nobody votes for, a FORGED certificate for X (repeated signer / the actor's signatures only / another block's signatures), and the proposal Y = (parent X, forged certificate)
+	AHoldNext             // template: the next proposal the actor would make is created but withheld
+	ARelease              // template: a withheld proposal is sent (late) to the replicas selected by B
 	aCount
 )
 
@@ -257,6 +261,20 @@ func (a *Actor) Act(A, B, C int) {
 	a.learn()
 	cl := a.cl
 	me := a.self(C)
+	switch mod(A, aCount) {
+	case AHoldNext:
+		a.hold = true
+		return
+	case ARelease:
+		if len(a.held) == 0 {
+			return
+		}
+		p := a.held[mod(C, len(a.held))]
+		for _, to := range a.targets(B) {
+			a.send(me, to, p)
+		}
+		return
+	}
 	if cl.Cfg.ActorAuto {
 		switch mod(A, aCount) {
 		case AProposeSkip, AProposeStaleQC, AEquivocate, AProposeWeird, AProposeOnForged:
@@ -406,6 +424,10 @@ func (a *Actor) Act(A, B, C int) {
 			v = best + hotstuff.View(1+mod(C, 3)) // relabelled
 		case 1:
 			v = a.maxView() + hotstuff.View(mod(C, 2)) // relabelled to the frontier
+		case 2:
+			if hv := a.highestKnownQC().View(); hv > 0 && mod(C, 2) == 0 {
+				v = 1 + hotstuff.View(mod(C/2, int(hv))) // relabelled to a view at or below the highest certified view
+			}
 		}
 		tc := hotstuff.NewTimeoutCert(sig, v)
 		if v != best || sig.Participants().Len() < cl.Quorum() {
@@ -455,6 +477,9 @@ func (a *Actor) Act(A, B, C int) {
 			// the newest fabricated certificate(s), to every replica
 			if len(a.ForgedQCs) > 0 && mod(B, 3) != 2 {
 				si.SetQC(a.ForgedQCs[len(a.ForgedQCs)-1-mod(B, min(2, len(a.ForgedQCs)))])
+			}
+			if mod(B, 4) == 3 {
+				si.SetQC(a.highestKnownQC()) // a genuine certificate next to a fabricated one
 			}
 			if len(a.ForgedTCs) > 0 && mod(B, 3) != 1 {
 				si.SetTC(a.ForgedTCs[len(a.ForgedTCs)-1-mod(B, min(2, len(a.ForgedTCs)))])
@@ -769,6 +794,11 @@ func (a *Actor) proposeMaybeDeviating(me *Stack, qc hotstuff.QuorumCert, v hotst
 	}
 	blk := hotstuff.NewBlock(parent, qc, a.batch(), v, me.ID)
 	cl.register(blk)
+	if a.hold {
+		a.hold = false
+		a.held = append(a.held, hotstuff.ProposeMsg{ID: me.ID, Block: blk, AggregateQC: agg})
+		return
+	}
 	for _, to := range tos {
 		a.send(me, to, hotstuff.ProposeMsg{ID: me.ID, Block: blk, AggregateQC: agg})
 	}
